@@ -149,6 +149,7 @@ def run(ctx):
                                 {"op": "isname", "s": s, "impl": r, "spec": sp}, signature="C04:isname:%s" % r)
                 if r != m:
                     ctx.disagree("isname", s, r, m)
+        _in_configurations(ctx, Z, rnd)
         ctx.cov["exhaustive"] = True
         ctx.cov["enumeration"] = {"alphabet": ALPHA, "maxlen": maxlen, "strings": len(enum), "codepoints_probed": len(cps)}
         _shrink(ctx, substitute, Z)
@@ -159,6 +160,58 @@ def run(ctx):
                        "lake build ZCV.Props.C04 && lake env lean ZCV/Audit/C04.lean",
                        ["os.getenv returns what os.environ holds", "mapping is a dict of str",
                         "model covers substitute/_split/isname; %define handling is C05"])
+
+
+def _in_configurations(ctx, Z, strings):
+    """the same function where the configuration parser applies it: a key's value, and a %define value that is read twice
+    (a re-definition compares expanded values: the expansion of the second reading must not be expanded again).  Expected:
+    the documented function on the value text, with the definitions made by the %define lines before it."""
+    import io
+    defs = {"name": "v1", "x": "$literal", "a1": "", "long_name_9": "w $$ w"}
+    env = tables(False)[1]
+    pre_lines = ["%%define %s %s" % (k, v.replace("$", "$$")) for k, v in defs.items()]
+    schema = Z.loadSchemaFile(io.StringIO("<schema><multikey name='k'/></schema>"))
+    cand = [s for s in dict.fromkeys(strings) if s and s == s.strip() and not any(c in s for c in "\n\r\x0b\x0c\x1c\x1d\x1e\x85\u2028\u2029")]
+    cand = [s for s in cand if "$" in s][: (6000 if ctx.thorough() else 1200)]
+    cand += ["$$5", "$$target", "$$$$", "a$$b$$", "$${x}", "$$(HOME_x)", "$x", "${x}$$", "$name$$name"]
+    envnames = sorted(env)[:6]
+    good = ["$$", "$$", "$name", "${Name}", "$X", "${a1}", "$long_name_9", "lit", " ", "-", "/p", "$$x", "$${a}", "{", "}", "(", ")"] + ["$(%s)" % n for n in envnames]
+    for _ in range(3000 if ctx.thorough() else 700):
+        t = "".join(ctx.rng.choice(good) for _ in range(ctx.rng.randint(1, 6))).strip()
+        if t:
+            cand.append(t)
+    cand = list(dict.fromkeys(cand))
+    if not ctx.driver_ok:
+        return
+    for n in set(list(tables(False)[1]) + list(tables(True)[1])):
+        os.environ.pop(n, None)
+    os.environ.update(env)
+    pre = [[core.sexp.Atom("setdefs"), [[k, v] for k, v in defs.items()]], [core.sexp.Atom("setenv"), [[k, v] for k, v in env.items()]]]
+    ans = core.driver_batch([[core.sexp.Atom("subst"), s_] for s_ in cand], prelude=pre)
+
+    def load(lines):
+        try:
+            cfg, _ = Z.loadConfigFile(schema, io.StringIO("".join(l + "\n" for l in lines)))
+            return ["ok", list(cfg.k)]
+        except Z.ConfigurationError as e:
+            return ["rejected", type(e).__name__]
+        except Exception as e:
+            return ["exc", type(e).__name__]
+    for s_, a in zip(cand, ans):
+        spec = canon_model(a[1])
+        want = ["ok", [spec[1]]] if spec[0] == "ok" else ["rejected"]
+        if spec[0] == "ok" and spec[1] != spec[1].strip():
+            continue        # a value with blank edges: the two shapes below differ in where stripping happens
+        for shape, lines in (("value", pre_lines + ["k " + s_]),
+                             ("define-twice", pre_lines + ["%define zq " + s_, "%define zq " + s_, "k $zq"]),
+                             ("define-once", pre_lines + ["%define zq " + s_, "k ${zq}"])):
+            got = load(lines)
+            ctx.evaluations += 1
+            ctx.count("in-configuration:%s:%s" % (shape, got[0]))
+            if got[: len(want)] != want:
+                ctx.violate("configuration %r: the loader gives %r, the documented substitution of %r gives %r" % (lines[len(pre_lines):], got, s_, spec),
+                            {"op": "substitute-in-configuration", "lines": lines, "s": s_, "defs": defs, "env": env, "impl": got, "spec": spec},
+                            signature="C04:in-configuration:%s:%s->%s" % (shape, want[0], got[0]))
 
 
 def _shrink(ctx, substitute, Z):
